@@ -81,6 +81,12 @@ def replaceAllAux (old new : Bytes) : Nat → Bytes → Bytes
 
 def replaceAll (s old new : Bytes) : Bytes := replaceAllAux old new s.length s
 
+/-- result of a function that can end in a reported failure (`ts.Fatalf(msg)`: no return, no panic). -/
+inductive Res (α : Type) where
+  | ok (v : α)
+  | fatal (msg : Bytes)
+deriving Repr, DecidableEq
+
 /-- a Go `error` value: `nil` or a message. -/
 abbrev GoError := Option Bytes
 
